@@ -356,6 +356,46 @@ theorem palette_unchanged (classes : List ClassDef) (nc : Bool) (cfg : Cfg) (ops
   · simp [p.1 hs]
   · simp [p.2.1 hun hs]
 
+/-- **Colour names are recognised in their exact spelling only.** A token is read as a named colour only if,
+blanks stripped, it is literally one of the generated `_COLORS_NAMES`; so an id that differs from a colour name
+by case or by a character (`red`, `Magenta`, `g24`, `RED_`) is never a colour — in the first section it is a
+reference to the syntax of that name (`near_miss_is_reference`). -/
+theorem named_colors_exact (s : Str) (c : Str) (h : parseColorImpl s = some (.col (.named c))) :
+    c = strip s ∧ c ∈ Gen.C14.colorNames := by
+  unfold parseColorImpl at h
+  simp only at h
+  split at h
+  · rename_i hmem
+    split at h
+    · cases h
+    · split at h
+      · cases h
+      · cases h; exact ⟨rfl, hmem⟩
+  · split at h
+    · split at h
+      · cases h
+      · split at h
+        · split at h
+          · split at h
+            · cases h
+            · cases h
+          · cases h
+        · cases h
+    · split at h
+      · rename_i i hi
+        cases hn : natRange i 0 255 with
+        | none => simp [hn] at h
+        | some n => simp [hn] at h
+      · cases h
+
+/-- a slash-less token that is not a colour (exact spelling, number, tuple), holds no comma and is not a
+modifier name (exact spelling) is a reference to the syntax called exactly like the token -/
+theorem near_miss_is_reference (t : Str) (h1 : splitOn '/' t = [t]) (h2 : parseColorImpl t = none)
+    (h3 : ',' ∉ t) (h4 : dictGet Gen.C14.modifiers t = none) :
+    parseColorsPart t = some ⟨some t, none, none⟩ := by
+  unfold parseColorsPart
+  simp [h1, h2, h3, h4]
+
 /-- **`no_color`.** A configuration created with `no_color` hands out effect-free formatters only, through
 `get_color` and through every palette; and a palette requested with `no_color` is effect-free under any
 configuration. -/
@@ -834,5 +874,14 @@ example : parseInitStr "RED :bold".toList = parseInitStr "RED:bold".toList ∧
     parseInitStr "( 1, 2, 3 ) / g4 :crossed , blink".toList = parseInitStr "(1,2,3)/g4:crossed,blink".toList ∧
     parseInitStr "RED :bold".toList = .ok ⟨none, .col (.named "RED".toList), .unspec, [("bold".toList, true)]⟩ := by
   decide +kernel
+
+/-- seed m16's shapes: `red`, `Magenta`, `g24`, `Bold` are references in the first section; in the second
+section (where only colours or modifiers may stand) they are rejected, exactly as the code does -/
+example : (parseInitStr "red:bold".toList = .ok ⟨some "red".toList, .unspec, .unspec, [("bold".toList, true)]⟩) ∧
+    (parseInitStr "Magenta".toList = .ok ⟨some "Magenta".toList, .unspec, .unspec, []⟩) ∧
+    (parseInitStr "g24".toList = .ok ⟨some "g24".toList, .unspec, .unspec, []⟩) ∧
+    (parseInitStr "Bold:RED".toList = .ok ⟨some "Bold".toList, .col (.named "RED".toList), .unspec, []⟩) ∧
+    (parseInitStr "A:red".toList = .error .valueError) ∧ (parseInitStr "red:GREEN".toList =
+      .ok ⟨some "red".toList, .col (.named "GREEN".toList), .unspec, []⟩) := by decide +kernel
 
 end C14
